@@ -230,6 +230,16 @@ def _canon(P, f, keep=()):
     from ..core import FuncInfo, copy_tree
     g = inlined_view(P, f, keep=keep)
     node = copy_tree(g.node)
+    # work items built with a module-level namedtuple are read as the tuples they are (the queue rules unpack them positionally)
+    nts = {nm for nm, v in f.module.assigns.items() if isinstance(v, ast.Call) and norm(v.func).split(".")[-1] in ("namedtuple", "NamedTuple")}
+    if nts:
+        class NT(ast.NodeTransformer):
+            def visit_Call(self, n):
+                self.generic_visit(n)
+                if isinstance(n.func, ast.Name) and n.func.id in nts and n.args and not n.keywords:
+                    return ast.copy_location(ast.Tuple(elts=list(n.args), ctx=ast.Load()), n)
+                return n
+        node = NT().visit(node)
     # aliases: a single-assignment local that holds a plain attribute read (`ref = inst.reference`) or a copy of another
     # single-assignment local is replaced by what it stands for at the uses that follow — but only where nothing in between could have
     # changed what the attribute read gives (a call that receives the root object, a store to one of its attributes): `children =
